@@ -312,8 +312,10 @@ def check_caret_alignment(ctx, sm, el):
         # comment or inside a quoted string is consumed by a rule that does not touch lineno (see newline_rules_without_lineno_update)
         out = []
         unseen = 0
-        for m in _re.finditer(r"/\*.*?\*/|'[^']*'|[^\s,]+|,", text, _re.S):
+        for m in _re.finditer(r"/\*.*?\*/|--[^\n]*|'[^']*'|[^\s,]+|,", text, _re.S):
             tok = m.group(0)
+            if tok.startswith('--'):
+                continue
             lineno = text.count('\n', 0, m.start()) + 1 - unseen
             if tok.startswith('/*') or tok.startswith("'"):
                 unseen += tok.count('\n')
@@ -330,7 +332,10 @@ def check_caret_alignment(ctx, sm, el):
               ('first line of three', 'select a from from t\nwhere x = 1\nand y = 2', 'from', 2), ('second line of four', 'select a\nfrom from t\nwhere x = 1\nand y = 2', 'from', 2),
               ('first line of five', 'selec a\nfrom t\nwhere x = 1\nand y = 2\nand z = 3', 'selec', 1), ('third line of five', 'select a\nfrom t\nwhere x = = 1\nand y = 2\nand z = 3', '=', 2),
               ('end of input', 'select a from', None, 0), ('end of input, long line', f'select {long_cols} from', None, 0),
-              ('end of input, second line', 'select a\n  from', None, 0)]
+              ('end of input, second line', 'select a\n  from', None, 0),
+              # the text goes on after the last token (a comment): the caret belongs behind the last TOKEN of the echoed line
+              ('end of input, trailing comment', 'select a from t where -- TODO', None, 0), ('end of input, comment line after', 'select a from\n  -- rest\n', None, 0),
+              ('end of input, block comment after', 'select a from t where /* later */', None, 0)]
     n = 0
     for label, text, bad, occurrence in probes:
         toks = tokens_of(text)
@@ -357,7 +362,7 @@ def check_caret_alignment(ctx, sm, el):
                 detail = f'the carets stand under `{shown[p_:p_ + k_]}` of the shown line, the offending token is `{bad_tok.value}`'
             elif ok:
                 last = toks[-1].value
-                ok = shown[:p_].endswith(last) and shown[p_:].strip() == ''
+                ok = shown[:p_].endswith(last) and shown[p_:].strip() == '' and p_ == len(shown.rstrip())      # directly behind the last token of the echoed line
                 detail = f'the caret stands behind `{shown[max(p_ - 12, 0):p_]}`, the input ends with `{last}`'
         ctx.ob('C19.caret-aligned', label, ok,
                f'[{label}] the last two lines of the message do not point at the error: {detail or msgs}', file=INIT, line=el.lineno,
